@@ -180,7 +180,9 @@ func (sc c12Script) body(c *explore.Ctx) {
 					if err == io.EOF {
 						err = nil
 					}
-					called, protIn = 1, doubles.ProtRO
+					if err == nil {
+						called, protIn = 1, doubles.ProtRO // (the reader copies inside the SDK: no callback of ours to observe)
+					}
 					seen = nil
 				}
 			})
@@ -261,6 +263,11 @@ func (sc c12Script) body(c *explore.Ctx) {
 				closing = true // a Close was attempted: later reads legitimately report "destroyed"
 			}
 		}
+		if err == nil && orig != nil && !bytes.Equal(got, orig) {
+			// whatever happened before (also a Close that failed half-way): a read that reports success hands out the secret,
+			// never other (wiped) bytes
+			c.Failf("degraded-read-after-fault", "after the faults stopped WithBytes reports success but hands out other bytes than the secret's (wiped by a Close that failed?); calls: %s", c12Calls(mc))
+		}
 		if !closing {
 			if err != nil {
 				c.Failf("not-usable-after-fault", "after the faults stopped WithBytes fails: %v; calls: %s", err, c12Calls(mc))
@@ -339,13 +346,14 @@ func c12Scripts(thorough bool) []c12Script {
 			c12Script{name: impl + "/new-nested-close", impl: impl, steps: []string{"new", "nested", "close"}},
 			c12Script{name: impl + "/new-close-close", impl: impl, steps: []string{"new", "close", "close"}},
 			c12Script{name: impl + "/rand-withfunc-with-close", impl: impl, steps: []string{"rand", "withfunc", "with", "close"}},
+			c12Script{name: impl + "/new-close-with-close", impl: impl, steps: []string{"new", "close", "with", "close"}},
+			c12Script{name: impl + "/new-close-reader-withfunc", impl: impl, steps: []string{"new", "close", "reader", "withfunc"}},
 		)
 		if thorough {
 			out = append(out,
 				c12Script{name: impl + "/new-reader-with-close", impl: impl, steps: []string{"new", "reader", "with", "close"}},
 				c12Script{name: impl + "/new-with-with-close-close", impl: impl, steps: []string{"new", "with", "with", "close", "close"}},
 				c12Script{name: impl + "/rand-nested-withfunc-reader-close", impl: impl, steps: []string{"rand", "nested", "withfunc", "reader", "close"}},
-				c12Script{name: impl + "/new-close-with-close", impl: impl, steps: []string{"new", "close", "with", "close"}},
 			)
 		}
 	}
